@@ -8,8 +8,12 @@ SRC="/tmp/seed-out/$PROP/$K"
 export GOFLAGS=-mod=mod GOPROXY=off GOSUMDB=off GOTOOLCHAIN=local
 WT="/tmp/tryseed-$PROP-$K"
 git -C /repo worktree remove --force "$WT" 2>/dev/null
-git -C /repo worktree add -q "$WT" HEAD || exit 2
-BASE=$(git -C /repo rev-parse --short HEAD)
+BASEREF="${SEED_BASE:-HEAD}"
+git -C /repo worktree add -q "$WT" "$BASEREF" || exit 2
+if ! git -C "$WT" apply --check "$SRC/patch.diff" 2>/dev/null && [ -n "${SEED_FALLBACK:-}" ]; then
+  git -C /repo worktree remove --force "$WT"; BASEREF="$SEED_FALLBACK"; git -C /repo worktree add -q "$WT" "$BASEREF" || exit 2
+fi
+BASE=$(git -C "$WT" rev-parse --short HEAD)
 DEMOS=$(ls "$SRC" | grep -v patch.diff | grep -v README | grep '\.go$')
 res() { echo "$1"; }
 cd "$WT"
